@@ -289,9 +289,10 @@ package dotgit
 //gvc:  opt coarse
 //gvc:  opt frame args
 //gvc:  requires nn: w != nil
+//gvc:  results err
 //gvc:  modifies w.#announced
-//gvc:  ensures told: result == nil && w.saved != nil && calls("save") == 1 ==> w.#announced == old(w.#announced) + 1
-//gvc:  ensures quiet: result != nil ==> w.#announced == old(w.#announced)
+//gvc:  ensures told: err == nil && w.saved != nil && calls("save") == 1 ==> w.#announced == old(w.#announced) + 1
+//gvc:  ensures quiet: err != nil ==> w.#announced == old(w.#announced)
 //gvc:  sink Notify requires stored: calls("save") == 1 && lastres("save") == nil
 //gvc:end
 
@@ -349,4 +350,12 @@ package dotgit
 //gvc:  sink clean requires dup: w.fs.#lstatAt[strid(packPath)] == w.fs.#clock && w.fs.#regAt[strid(packPath)]
 //gvc:  sink Rename requires place: same_string(arg1, packPath)
 //gvc:  ensures placed: result == nil ==> calls("Rename") + calls("clean") >= 1
+//gvc:end
+
+// clean removes the temporary pack file and touches nothing of the writer.
+//gvc:func (*PackWriter).clean
+//gvc:  props C18
+//gvc:  theory int
+//gvc:  opt coarse
+//gvc:  opt frame args
 //gvc:end
